@@ -827,4 +827,13 @@ def under(t: Term, assumptions) -> Term:
     if t[0] in ('and', 'or'):
         parts = [under(x, known) for x in t[1]]
         return mk_bool(t[0], parts) if not any(p == ('const', t[0] == 'or') for p in parts) else ('const', t[0] == 'or')
+    if t[0] == 'ite' and len(t) == 4:
+        if t[1] in known:
+            return under(t[2], known)
+        if mk_not(t[1]) in known:
+            return under(t[3], known)
+    if isinstance(t, tuple):
+        return resort(tuple(under(x, known) if isinstance(x, tuple) and x and isinstance(x[0], str) else
+                            (tuple(under(y, known) if isinstance(y, tuple) and y and isinstance(y[0], str) else y for y in x) if isinstance(x, tuple) else x)
+                            for x in t))
     return t
